@@ -2,6 +2,7 @@ package main
 
 import (
 	"fmt"
+	"go/constant"
 	"go/types"
 	"strings"
 
@@ -237,6 +238,8 @@ func runC01(c *Ctx) {
 
 	// ---------- O-7 ----------
 	c.checkLivenessGlue()
+	c.checkClosedBeforeTeardown("O-7 liveness glue")
+	c.checkLoopCapture("O-9 per-connection goroutines own their variables", "server", "server/lib", "client", "client/lib", "proxy", "proxy/lib", "common/turbotunnel", "common/websocketconn")
 
 	// ---------- O-8 buffered packet writes are flushed ----------
 	c.checkFlushAfterWriteData("O-8 every encapsulated packet written through a buffered writer is flushed")
@@ -407,6 +410,35 @@ func (c *Ctx) checkTunnelConstants(ns *ssa.Function) {
 		return v
 	}
 	c.check(ver(ns) == ver(acceptT) && ver(ns) > 0, rule, "smux protocol version equal on both ends", p.Pos(acceptT.Pos()), fmt.Sprint(ver(ns)), fmt.Sprintf("client %d vs server %d", ver(ns), ver(acceptT)))
+	// smux keep-alive timeout: the session must outlive a carrier-less period, so
+	// both ends override smux's 30 s default with the same, longer value (and one
+	// that is not shorter than the server's client-map retention)
+	kat := func(fn *ssa.Function) int64 {
+		v := int64(-1)
+		for _, g := range deepFns(fn, 2) {
+			allInstrs(g, func(in ssa.Instruction) {
+				if st, ok := in.(*ssa.Store); ok {
+					if _, f, okf := fieldOfAddr(st.Addr); okf && f.Name() == "KeepAliveTimeout" && f.Pkg() != nil && strings.Contains(f.Pkg().Path(), "smux") {
+						if k, okk := constInt(st.Val); okk {
+							v = k
+						} else {
+							v = -2
+						}
+					}
+				}
+			})
+		}
+		return v
+	}
+	ka, kb := kat(ns), kat(acceptT)
+	retention := int64(-1)
+	if cm := p.Const("server/lib", "clientMapTimeout"); cm != nil {
+		if k, ok := constant.Int64Val(cm.Val()); ok {
+			retention = k
+		}
+	}
+	c.check(ka == kb && ka > 0 && retention > 0 && ka >= retention, rule, "smux keep-alive timeout equal on both ends and not below the client-map retention", p.Pos(acceptT.Pos()), fmt.Sprintf("%d ns on both ends (retention %d ns)", ka, retention),
+		fmt.Sprintf("client %d ns vs server %d ns (retention %d ns; -1 = smux default of 30 s, -2 = not a constant): one end gives up on the session during a carrier-less period that the other end, and the client map, are prepared to bridge", ka, kb, retention))
 }
 
 func (c *Ctx) checkLivenessGlue() {
@@ -512,4 +544,84 @@ func (c *Ctx) checkLivenessGlue() {
 		})
 	}
 	c.check(okTimeout, rule, "the broker round trip has a bounded response-header timeout", "-", "", "no positive ResponseHeaderTimeout is set on the rendezvous transport: when the broker accepts a poll but never answers, Collect blocks for ever holding collectLock and no replacement proxy is ever collected")
+}
+
+// checkClosedBeforeTeardown: WebRTCPeer.Close marks the peer closed (close of
+// the closed channel, which Closed() polls) before it tears the transport down,
+// so that Peers.Pop - which skips peers whose Closed() is true - cannot hand out
+// a peer whose data channel is already gone.
+func (c *Ctx) checkClosedBeforeTeardown(rule string) {
+	p := c.P
+	cl := p.Fn("client/lib", "(*WebRTCPeer).Close")
+	cleanup := p.Fn("client/lib", "(*WebRTCPeer).cleanup")
+	if cl == nil || cleanup == nil {
+		c.undecided(rule, "WebRTCPeer.Close/cleanup", "-", "anchor does not resolve")
+		return
+	}
+	n := 0
+	for _, site := range p.realCallers(cleanup) {
+		n++
+		fn := site.Parent()
+		var closeOp ssa.Instruction
+		for _, op := range chanOpsIn(p, fn) {
+			if op.Dir == chClose && op.Class == "WebRTCPeer.closed" {
+				closeOp = op.Instr
+			}
+		}
+		good := closeOp != nil && belongsTo(fn, cl) && precedes(closeOp, site) && !canFollow(site, closeOp)
+		c.check(good, rule, "the peer is marked closed before its transport is torn down", p.instrPos(site), "close(c.closed) precedes cleanup() in Close's once body",
+			"cleanup() can run while Closed() still reports false: Pop hands the dying peer to the redial loop, whose preamble write fails and ends the session although healthy peers are available")
+	}
+	if n == 0 {
+		c.undecided(rule, "callers of WebRTCPeer.cleanup", p.Pos(cleanup.Pos()), "none found")
+	}
+}
+
+// checkLoopCapture: a goroutine started inside a loop must not capture a
+// variable that lives across iterations and is assigned in the loop: the next
+// iteration overwrites it while the goroutine of the previous one is still
+// reading (two connections handled as one, one never handled).
+func (c *Ctx) checkLoopCapture(rule string, rels ...string) {
+	p := c.P
+	nGo := 0
+	bad := 0
+	for _, fn := range p.FnsIn(rels...) {
+		for _, ci := range callsIn(fn) {
+			g, ok := ci.(*ssa.Go)
+			if !ok || !inCycle(g.Block()) {
+				continue
+			}
+			mc, ok := g.Call.Value.(*ssa.MakeClosure)
+			if !ok {
+				continue
+			}
+			nGo++
+			for _, b := range mc.Bindings {
+				al, ok := b.(*ssa.Alloc)
+				if !ok {
+					continue
+				}
+				// re-created in every iteration?
+				if reachPath(g.Block(), al.Block(), nil) != nil {
+					continue
+				}
+				if al.Referrers() == nil {
+					continue
+				}
+				for _, r := range *al.Referrers() {
+					st, ok := r.(*ssa.Store)
+					if !ok || st.Addr != ssa.Value(al) {
+						continue
+					}
+					if reachPath(g.Block(), st.Block(), nil) != nil && reachPath(st.Block(), g.Block(), nil) != nil {
+						bad++
+						c.viol(rule, p.FnName(fn)+": goroutine captures "+al.Comment, p.instrPos(g), "the variable is declared outside the loop and assigned at "+p.instrPos(st)+" in every iteration: goroutines of earlier iterations observe later values")
+					}
+				}
+			}
+		}
+	}
+	if bad == 0 {
+		c.ok(rule, "goroutines started in loops capture only per-iteration variables", "-", fmt.Sprintf("%d go statements with closures inside loops examined", nGo))
+	}
 }
